@@ -68,16 +68,113 @@ func (r *rng) decRaw(maxDigits int, allowNeg bool) *big.Int {
 func dec(raw *big.Int) math.LegacyDec { return math.LegacyNewDecFromBigIntWithPrec(raw, 18) }
 func rawOf(d math.LegacyDec) string   { return d.BigInt().String() }
 
+// isRangePanic: the panic values of cosmossdk.io/math's range assertions — LegacyDec.assertInValidRange ("Int overflow"),
+// Int.Add/Sub/Mul (the error ErrIntOverflow, "integer overflow"), NewIntFromBigInt(Mut) behind TruncateInt/RoundInt
+// ("NewIntFromBigInt() out of bound"), Int64()/TruncateInt64()/RoundInt64() ("Int64() out of bound"), Uint64() ("Uint64() out of bounds").
+func isRangePanic(r any) bool {
+	msg := ""
+	switch v := r.(type) {
+	case string:
+		msg = v
+	case error:
+		msg = v.Error()
+	}
+	return msg == "Int overflow" || msg == "integer overflow" || strings.Contains(msg, "out of bound")
+}
+
 func guard(f func() string) (out string) {
 	defer func() {
 		if r := recover(); r != nil {
 			out = "panic"
-			if s, ok := r.(string); ok && strings.Contains(s, "overflow") {
-				out = "overflow" // 2^256·10^18 range assertion: outside the model, skipped by the comparator
+			if isRangePanic(r) {
+				out = "range" // compared with the kernel's `_rng` guard (R line of the driver); skipped only for ops without one
 			}
 		}
 	}()
 	return f()
+}
+
+var (
+	two256   = new(big.Int).Lsh(big.NewInt(1), 256)
+	decRange = new(big.Int).Mul(two256, prec) // 2^256 * 10^18: valid raw values are strictly inside (-decRange, decRange)
+)
+
+// jitter: v + d with a small signed d (mostly within +-3, sometimes larger)
+func (r *rng) jitter(v *big.Int) *big.Int {
+	d := int64(r.n(7) - 3)
+	if r.n(4) == 0 {
+		d = int64(r.n(2000001) - 1000000)
+	}
+	return new(big.Int).Add(v, big.NewInt(d))
+}
+
+// edgeRaw: magnitudes next to the library's bounds: 2^63, 2^64, 2^127, 2^128, 2^255, 2^256, 2^256*10^18 (raw Dec bound),
+// their square roots scaled for products, and 2^k(1+x) for k up to 320
+func (r *rng) edgeRaw(allowNeg bool) *big.Int {
+	var v *big.Int
+	switch r.n(8) {
+	case 0:
+		ks := []uint{63, 64, 127, 128, 160, 192, 255, 256, 257, 315, 316}
+		v = r.jitter(new(big.Int).Lsh(big.NewInt(1), ks[r.n(len(ks))]))
+	case 1:
+		v = r.jitter(decRange)
+	case 2:
+		v = r.jitter(new(big.Int).Mul(new(big.Int).Lsh(big.NewInt(1), uint(250+r.n(8))), prec))
+	case 3:
+		v = r.jitter(new(big.Int).Sqrt(new(big.Int).Mul(decRange, prec))) // x*x/10^18 ~ bound
+	default:
+		k := uint(r.n(321))
+		v = new(big.Int).Lsh(big.NewInt(1), k)
+		v.Add(v, new(big.Int).Rsh(new(big.Int).Mul(v, big.NewInt(int64(r.n(1<<20)))), 20))
+		v = r.jitter(v)
+	}
+	if v.Sign() < 0 && !allowNeg {
+		v.Neg(v)
+	}
+	if allowNeg && r.n(4) == 0 {
+		v.Neg(v)
+	}
+	return v
+}
+
+// edgeInt: a VALID math.Int (|i| < 2^256) next to the Int / int64 bounds
+func (r *rng) edgeInt(allowNeg bool) *big.Int {
+	for {
+		v := r.edgeRaw(allowNeg)
+		if v.BitLen() <= 256 {
+			return v
+		}
+		if r.n(2) == 0 {
+			return new(big.Int).Sub(two256, big.NewInt(int64(1+r.n(3))))
+		}
+	}
+}
+
+// mulEdge: (x, y) with x*y/10^18 within a few units of +-bound; quoEdge: (x, y) with x*10^18/y next to it
+func (r *rng) mulEdge(bound *big.Int) (*big.Int, *big.Int) {
+	x := new(big.Int).Add(r.bigDigits(60), big.NewInt(1))
+	y := new(big.Int).Quo(new(big.Int).Mul(bound, prec), x)
+	y = r.jitter(y)
+	if r.n(4) == 0 {
+		x.Neg(x)
+	}
+	if r.n(4) == 0 {
+		y.Neg(y)
+	}
+	return x, y
+}
+
+func (r *rng) quoEdge(bound *big.Int) (*big.Int, *big.Int) {
+	y := new(big.Int).Add(r.bigDigits(30), big.NewInt(1))
+	x := new(big.Int).Quo(new(big.Int).Mul(bound, y), prec)
+	x = r.jitter(x)
+	if r.n(4) == 0 {
+		x.Neg(x)
+	}
+	if r.n(4) == 0 {
+		y.Neg(y)
+	}
+	return x, y
 }
 
 func b2s(b bool) string {
@@ -129,9 +226,84 @@ func setDec(r *rng, np int, emit func(op string, exp string)) {
 			{"quo", math.LegacyDec.Quo}, {"quoTruncate", math.LegacyDec.QuoTruncate}, {"quoRoundUp", math.LegacyDec.QuoRoundUp},
 		}
 		for i := 0; i < *n; i++ {
-			for _, b := range bins {
+			for bi, b := range bins {
 				x, y := r.decRaw(45, true), r.decRaw(45, true)
 				emit(fmt.Sprintf("D %s %s %s", b.name, x, y), guard(func() string { return rawOf(b.f(dec(x), dec(y))) }))
+				// range assertion of the result: operand pairs whose result lies within a few units of +-2^256*10^18
+				if i%2 == 0 {
+					var ex, ey *big.Int
+					if bi < 3 {
+						ex, ey = r.mulEdge(decRange)
+					} else {
+						ex, ey = r.quoEdge(decRange)
+					}
+					if r.n(4) == 0 {
+						ex, ey = r.edgeRaw(true), r.edgeRaw(true)
+						if ey.Sign() == 0 {
+							ey = big.NewInt(1)
+						}
+					}
+					emit(fmt.Sprintf("D %s %s %s", b.name, ex, ey), guard(func() string { return rawOf(b.f(dec(ex), dec(ey))) }))
+				}
+			}
+			if i%2 == 0 {
+				// Add / Sub / MulInt / Ceil / TruncateInt / RoundInt / *Int64 / Int.Add,Sub,Mul / Int64() / Uint64() at their bounds
+				a1 := r.jitter(new(big.Int).Quo(decRange, big.NewInt(int64(1+r.n(3)))))
+				a2 := new(big.Int).Sub(decRange, a1)
+				a2 = r.jitter(a2)
+				if r.n(2) == 0 {
+					a1.Neg(a1)
+					a2.Neg(a2)
+				}
+				emit(fmt.Sprintf("D add %s %s", a1, a2), guard(func() string { return rawOf(dec(a1).Add(dec(a2))) }))
+				na2 := new(big.Int).Neg(a2)
+				emit(fmt.Sprintf("D sub %s %s", a1, na2), guard(func() string { return rawOf(dec(a1).Sub(dec(na2))) }))
+				e1, e2 := r.edgeRaw(true), r.edgeRaw(true)
+				emit(fmt.Sprintf("D add %s %s", e1, e2), guard(func() string { return rawOf(dec(e1).Add(dec(e2))) }))
+				emit(fmt.Sprintf("D sub %s %s", e1, e2), guard(func() string { return rawOf(dec(e1).Sub(dec(e2))) }))
+				k := r.edgeInt(true)
+				m := r.jitter(new(big.Int).Quo(decRange, new(big.Int).Add(new(big.Int).Abs(k), big.NewInt(1))))
+				emit(fmt.Sprintf("D mulInt %s %s", m, k), guard(func() string { return rawOf(dec(m).MulInt(math.NewIntFromBigInt(k))) }))
+				c := r.edgeRaw(true)
+				if r.n(2) == 0 {
+					c = r.jitter(new(big.Int).Sub(decRange, prec))
+				}
+				emit(fmt.Sprintf("D ceil %s", c), guard(func() string { return rawOf(dec(c).Ceil()) }))
+				t := r.jitter(new(big.Int).Mul(r.edgeInt(true), prec))
+				if r.n(3) == 0 {
+					t = new(big.Int).Sub(decRange, new(big.Int).Quo(prec, big.NewInt(int64(1+r.n(4)))))
+				}
+				if r.n(5) == 0 { // an out-of-range Dec (constructors do not assert): TruncateInt's own 256-bit assertion
+					t = r.jitter(new(big.Int).Add(decRange, r.bigDigits(20)))
+				}
+				emit(fmt.Sprintf("D truncateInt %s", t), guard(func() string { return dec(t).TruncateInt().String() }))
+				emit(fmt.Sprintf("D roundInt %s", t), guard(func() string { return dec(t).RoundInt().String() }))
+				t64 := r.jitter(new(big.Int).Mul(r.jitter(new(big.Int).Lsh(big.NewInt(1), 63)), prec))
+				if r.n(2) == 0 {
+					t64.Neg(t64)
+				}
+				if r.n(3) == 0 {
+					t64 = new(big.Int).Sub(new(big.Int).Mul(new(big.Int).Lsh(big.NewInt(1), 63), prec), new(big.Int).Quo(prec, big.NewInt(2)))
+					t64 = r.jitter(t64)
+				}
+				emit(fmt.Sprintf("D truncateInt64 %s", t64), guard(func() string { return fmt.Sprint(dec(t64).TruncateInt64()) }))
+				emit(fmt.Sprintf("D roundInt64 %s", t64), guard(func() string { return fmt.Sprint(dec(t64).RoundInt64()) }))
+				i1, i2 := r.edgeInt(true), r.edgeInt(true)
+				emit(fmt.Sprintf("D iadd %s %s", i1, i2), guard(func() string { return math.NewIntFromBigInt(i1).Add(math.NewIntFromBigInt(i2)).String() }))
+				emit(fmt.Sprintf("D isub %s %s", i1, i2), guard(func() string { return math.NewIntFromBigInt(i1).Sub(math.NewIntFromBigInt(i2)).String() }))
+				j1 := r.edgeInt(true)
+				j2 := r.jitter(new(big.Int).Quo(two256, new(big.Int).Add(new(big.Int).Abs(j1), big.NewInt(1))))
+				if j2.BitLen() > 256 {
+					j2 = big.NewInt(2)
+				}
+				emit(fmt.Sprintf("D imul %s %s", j1, j2), guard(func() string { return math.NewIntFromBigInt(j1).Mul(math.NewIntFromBigInt(j2)).String() }))
+				emit(fmt.Sprintf("D int64 %s", i1), guard(func() string { return fmt.Sprint(math.NewIntFromBigInt(i1).Int64()) }))
+				u := r.jitter(new(big.Int).Lsh(big.NewInt(1), uint(63+r.n(2))))
+				if r.n(5) == 0 {
+					u = big.NewInt(int64(r.n(3) - 1))
+				}
+				emit(fmt.Sprintf("D int64 %s", u), guard(func() string { return fmt.Sprint(math.NewIntFromBigInt(u).Int64()) }))
+				emit(fmt.Sprintf("D uint64 %s", u), guard(func() string { return fmt.Sprint(math.NewIntFromBigInt(u).Uint64()) }))
 			}
 			x := r.decRaw(45, true)
 			emit(fmt.Sprintf("D ceil %s", x), guard(func() string { return rawOf(dec(x).Ceil()) }))
@@ -147,6 +319,17 @@ func setDec(r *rng, np int, emit func(op string, exp string)) {
 				y := r.decRaw(22, false)
 				p := uint64(r.n(40))
 				emit(fmt.Sprintf("D power %s %d", y, p), guard(func() string { return rawOf(dec(y).Power(p)) }))
+				// a base whose p-th power is next to the bound: y ~ (2^256)^(1/p)
+				if p >= 2 {
+					f := new(big.Float).SetPrec(600).SetInt(two256)
+					for it := uint64(1); it < p && it < 8; it++ {
+						f.Sqrt(f) // repeated square roots: (2^256)^(1/2^k), k < 8
+					}
+					yb, _ := f.Int(nil)
+					yb = r.jitter(new(big.Int).Mul(yb, prec))
+					pp := uint64(1) << min(p-1, 7)
+					emit(fmt.Sprintf("D power %s %d", yb, pp), guard(func() string { return rawOf(dec(yb).Power(pp)) }))
+				}
 				z := r.decRaw(40, false)
 				emit(fmt.Sprintf("D approxSqrt %s", z), guard(func() string {
 					s, err := dec(z).ApproxSqrt()
@@ -164,14 +347,32 @@ func setCL(r *rng, np int, emit func(op string, exp string)) {
 	n := &np
 	{
 		for i := 0; i < *n; i++ {
+			// every third iteration draws its operands next to the library's range bounds (2^63 … 2^256, 2^256*10^18, 2^k up to
+			// k = 320), so that the range assertions inside the kernels fire and the `_rng` guards are compared on both sides
+			ext := i%3 == 2
+			decRaw := func(d int, neg bool) *big.Int {
+				if ext {
+					return r.edgeRaw(neg)
+				}
+				return r.decRaw(d, neg)
+			}
+			bigDigits := func(d int) *big.Int {
+				if ext {
+					return r.edgeInt(false)
+				}
+				return r.bigDigits(d)
+			}
 			// sqrt prices: positive, various magnitudes, often close together
-			pa := r.decRaw(30, false)
-			pb := r.decRaw(30, false)
+			pa := decRaw(30, false)
+			pb := decRaw(30, false)
 			if r.n(3) == 0 {
 				pb = new(big.Int).Add(pa, big.NewInt(int64(r.n(1000))))
 			}
-			liq := r.decRaw(40, r.n(4) == 0)
-			amt := r.bigDigits(30)
+			if ext && r.n(2) == 0 { // realistic prices, extreme amounts
+				pa, pb = r.decRaw(30, false), r.decRaw(30, false)
+			}
+			liq := decRaw(40, r.n(4) == 0)
+			amt := bigDigits(30)
 			ru := r.n(2) == 0
 			emit(fmt.Sprintf("K LiquidityBase %s %s %s", amt, pa, pb), guard(func() string {
 				return rawOf(lptypes.LiquidityBase(math.NewIntFromBigInt(amt), dec(pa), dec(pb)))
@@ -185,8 +386,28 @@ func setCL(r *rng, np int, emit func(op string, exp string)) {
 			emit(fmt.Sprintf("K CalcAmountQuoteDelta %s %s %s %s", liq, pa, pb, b2s(ru)), guard(func() string {
 				return rawOf(lptypes.CalcAmountQuoteDelta(dec(liq), dec(pa), dec(pb), ru))
 			}))
-			rem := r.decRaw(35, false)
-			pl := r.decRaw(40, false)
+			if ext {
+				// directed: only the LAST assertion of the kernel (Ceil) decides — price gap exactly 1, liquidity within one unit
+				// below the bound, so Mul is exact and in range and Ceil steps over 2^256*10^18 (or lands on a whole number below)
+				qa := r.decRaw(30, false)
+				qb := new(big.Int).Add(qa, prec)
+				ql := new(big.Int).Sub(decRange, big.NewInt(1+int64(r.n(1000000))))
+				switch r.n(3) {
+				case 0:
+					ql = new(big.Int).Sub(decRange, new(big.Int).Mul(prec, big.NewInt(int64(1+r.n(3))))) // whole number: Ceil is the identity
+				case 1:
+					ql = new(big.Int).Sub(ql, prec) // one below: Ceil stays in range
+				}
+				for _, up := range []bool{true, false} {
+					emit(fmt.Sprintf("K CalcAmountQuoteDelta %s %s %s %s", ql, qa, qb, b2s(up)), guard(func() string {
+						return rawOf(lptypes.CalcAmountQuoteDelta(dec(ql), dec(qa), dec(qb), up))
+					}))
+				}
+			}
+			rem := decRaw(35, false)
+			pl := decRaw(40, false)
+			emit(fmt.Sprintf("K SquareRoundUp %s", pa), guard(func() string { return rawOf(lptypes.SquareRoundUp(dec(pa))) }))
+			emit(fmt.Sprintf("K SquareTruncate %s", pa), guard(func() string { return rawOf(lptypes.SquareTruncate(dec(pa))) }))
 			emit(fmt.Sprintf("K NextBaseIn %s %s %s", pa, pl, rem), guard(func() string {
 				return rawOf(lptypes.GetNextSqrtPriceFromAmountBaseInRoundingUp(dec(pa), dec(pl), dec(rem)))
 			}))
@@ -255,8 +476,8 @@ func setCL(r *rng, np int, emit func(op string, exp string)) {
 					}
 				}
 			}
-			amtQ := r.bigDigits(30)
-			pc := r.decRaw(30, false)
+			amtQ := bigDigits(30)
+			pc := decRaw(30, false)
 			emit(fmt.Sprintf("K GetLiquidityFromAmounts %s %s %s %s %s", pc, pa, pb, amt, amtQ), guard(func() string {
 				return rawOf(lptypes.GetLiquidityFromAmounts(dec(pc), dec(pa), dec(pb), math.NewIntFromBigInt(amt), math.NewIntFromBigInt(amtQ)))
 			}))
@@ -279,6 +500,21 @@ func setCL(r *rng, np int, emit func(op string, exp string)) {
 			remI := new(big.Int).Mul(r.bigDigits(20), prec) // integral remaining (first step)
 			if r.n(3) == 0 {
 				remI = r.decRaw(36, false) // non-integral remaining (later steps)
+			}
+			if ext { // liquidity / remaining amount next to the bounds (prices stay realistic in half of the cases)
+				if r.n(2) == 0 {
+					lq = new(big.Int).Add(r.edgeRaw(false), big.NewInt(1))
+				}
+				if r.n(2) == 0 {
+					remI = r.edgeRaw(false)
+				}
+				if r.n(4) == 0 {
+					cur = new(big.Int).Add(r.edgeRaw(false), big.NewInt(1))
+					lo, hi = new(big.Int).Rsh(cur, 1), new(big.Int).Lsh(cur, 1)
+					if lo.Sign() == 0 {
+						lo = big.NewInt(1)
+					}
+				}
 			}
 			for _, bfq := range []bool{true, false} {
 				tgt := hi
